@@ -141,6 +141,7 @@ def main():
         ck.traces += o["states"]
         ck.bump("ambiguous_positions_skipped", o["ambiguous"])
         ck.bump("cli_runs", o["cli"])
+        ck.bump("chunks_with_ambiguous_reference_bases", o.get("ambig_ref_chunks", 0))
         for m in o["mismatch"]:
             k = json.dumps([m["kind"], m["key"]], sort_keys=True)
             seen[k] = seen.get(k, 0) + 1
